@@ -748,3 +748,39 @@ Proof.
   rewrite (fits_of_updated width cts seps _ _ _ U), F. simpl. rewrite C. simpl.
   rewrite (update_col_stats_idem width _ _ _ U). reflexivity.
 Qed.
+
+(* ------------------------- converting the dataset's own frame reproduces its TensorFrame *)
+(* after materialize (statistics recomputed or supplied), the mappers built from the FINAL
+   statistics (the ones dataset.col_stats shows, EMB_DIM included) and the converter state left
+   behind by the materialization convert the dataset's own frame into the dataset's TensorFrame *)
+Theorem own_frame_reproduced cts seps target compute width supplied df st d tf :
+  materialize cts seps target compute width supplied df = Some (st, d, tf) ->
+  exists fits, fits_of cts seps st = Some fits /\ pcall fits target d df = Some (d, tf).
+Proof.
+  unfold materialize. intros H.
+  destruct (match supplied with
+            | Some s => if validate_stats cts s then Some s else None
+            | None => Some (compute df)
+            end) as [st0|]; simpl in H; [|discriminate].
+  destruct (fits_of cts seps st0) as [fits|] eqn:F; simpl in H; [|discriminate].
+  destruct (pcall fits target (init_names cts target) df) as [[d1 tf1]|] eqn:C; simpl in H; [|discriminate].
+  destruct (update_col_stats width st0 d1) as [st1|] eqn:U; simpl in H; [|discriminate].
+  inversion H; subst st1 d1 tf1; clear H.
+  exists fits. split.
+  - rewrite (fits_of_updated width cts seps _ _ _ U). exact F.
+  - unfold pcall in *. pose proof (call_state _ _ _ _ _ _ C) as M.
+    rewrite (call_from_merged _ target _ _ df M). exact C.
+Qed.
+
+(* ... and every non-empty selection of its rows into the corresponding rows of that TensorFrame *)
+Theorem own_frame_selection cts seps target compute width supplied df st d tf idx df' :
+  materialize cts seps target compute width supplied df = Some (st, d, tf) ->
+  idx <> [] -> pdf_select idx df = Some df' ->
+  (forall fits c col, fits_of cts seps st = Some fits -> df_col df c = Some col -> pipeline_ok fits c (df_index df) col) ->
+  exists fits tf', fits_of cts seps st = Some fits /\ tf_select idx tf = Some tf' /\
+                   pcall fits target d df' = Some (d, tf').
+Proof.
+  intros H Hne S Hok. destruct (own_frame_reproduced _ _ _ _ _ _ _ _ _ _ H) as [fits [F C]].
+  destruct (pcall_select fits target d idx df df' d tf Hne (fun c col => Hok fits c col F) S C) as [tf' [T C']].
+  exists fits, tf'. auto.
+Qed.
